@@ -24,6 +24,11 @@ FINDING_TYPES = {
 }
 
 
+# structs made only of the kinds docs/serialization documents as protobuf-compatible: the harness checks them against
+# protobuf's own writer and generic wire parser, the driver prints the Lean `pbEncode`
+PB_TYPES = ("A1", "A5", "A6")
+
+
 # ------------------------------------------------------------------------------------------------
 # type expressions (as printed by the harness `types` op)
 def parse_type(s):
@@ -408,7 +413,7 @@ def op_id(line):
     return w[1] if len(w) > 1 else ""
 
 
-def classify(line, out):
+def classify(line, out, texpr=""):
     """stable failing-input key for an oracle failure"""
     w = line.split()
     tid = op_id(line)
@@ -419,7 +424,9 @@ def classify(line, out):
     pres = w[-1] if w[0] in ("rt", "dec", "deci") else ""
     if kind == "nonterminating":
         return "oracle:nonterminating-unreadable-length"
-    if w[0] == "rt" and tid.startswith("V") and pres.startswith("s") and "L" not in pres and kind in ("roundtrip", "crash"):
+    if "vec(" in texpr and pres.startswith("s") and kind in ("roundtrip", "crash", "fixpoint"):
+        # a vector parsed from a stream-backed CodedInputStream (BytesUntilLimit() is -1 without a limit, and stays
+        # positive at the end of the input under a limit that lies beyond it)
         return "oracle:vector-top-level-no-limit"
     if w[0] == "enc2" and kind in ("size", "cached-serialize-differs", "roundtrip-after-reuse"):
         return "oracle:stale-field-cache"
@@ -461,7 +468,11 @@ def run(ctx):
         "round trip is claimed for canonical values only: no non-empty default member initialiser on string/container/pointer members, no null smart "
         "pointer to a varint/fixed-width type as container or array element, distinct set/map keys, nested encodings below 2 GiB (the excluded shapes are "
         "run on the real code and reported as known findings)",
-        "size caches: the model has none; serialization histories of one object are covered by the harness oracle (enc2), not by theorem",
+        "size caches: the model has none; serialization histories of one object (stale per-field cache, COMPLEX base class without whole-object cache) "
+        "are covered by the harness oracle (enc / enc2), not by theorem",
+        "protobuf compatibility: 'babylon reads protobuf' is a theorem about pbEncode (checked byte for byte against protobuf's WireFormatLite writer by the "
+        "harness); 'protobuf reads babylon' is decided by protobuf's own generic parser (UnknownFieldSet) on the generated values of the documented struct only",
+        "enums without a fixed underlying type, std::vector<bool> beyond its element semantics, allocators and custom string traits are not in the type table",
         "recursive C++ types do not compile with BABYLON_SERIALIZABLE, so nesting depth is bounded by the type; deeper hostile nesting lands in unknown-field skipping",
         "protobuf MessageLite members (message.h) delegate to protobuf itself and are outside the model",
     ]
@@ -469,7 +480,12 @@ def run(ctx):
     ctx.lake_build(["Babylon.Properties.C11"])
     ctx.audit("Babylon.Properties.C11")
     if not ctx.quick:
-        ctx.leanchecker(["Babylon.Wire.Varint", "Babylon.Wire.Codec", "Babylon.Properties.C11"])
+        ctx.leanchecker(["Babylon.Wire.Varint", "Babylon.Wire.Codec", "Babylon.Wire.Pb", "Babylon.Wire.LemmasVarint",
+                         "Babylon.Wire.LemmasSize", "Babylon.Wire.LemmasStream", "Babylon.Wire.LemmasTotal",
+                         "Babylon.Wire.LemmasRead", "Babylon.Wire.LemmasCanon", "Babylon.Wire.LemmasRoundtrip",
+                         "Babylon.Wire.LemmasRoundtrip2", "Babylon.Wire.LemmasUnknown", "Babylon.Wire.LemmasFixpoint",
+                         "Babylon.Wire.LemmasFixpoint2", "Babylon.Wire.LemmasPb", "Babylon.Wire.LemmasOrder",
+                         "Babylon.Properties.C11"])
     ctx.log("proofs built and audited")
     drv = ctx.driver("drv_C11")
     exe, log = build("asan")
@@ -502,7 +518,7 @@ def run(ctx):
     # ---- stage 1: values -> encodings from the real code (seeds for stage 2) ------------------------------
     plan = []            # (tid, value text)
     for tid, (expr, t) in types.items():
-        n = nvals if tid not in FINDING_TYPES else 3
+        n = nvals * (3 if tid in PB_TYPES else 1) if tid not in FINDING_TYPES else 3
         for _ in range(n):
             plan.append((tid, show_value(t, gen_value(rng, t))))
     s1 = ["enc %s %s" % p for p in plan]
@@ -533,6 +549,8 @@ def run(ctx):
             add([("encu" if unordered else "enc") + " %s %s" % (tid, v)])
             add(["rt %s %s %s" % (tid, v, gen_pres(rng, len(b), full=True))])
             add(["dec %s %s %s" % (tid, b.hex() or "-", gen_pres(rng, len(b)))], mut="valid")
+            if tid in PB_TYPES:
+                add(["pb %s %s" % (tid, v)])
             if tid in FINDING_TYPES:
                 continue
             if rng.random() < 0.5 and not unordered:
@@ -565,7 +583,7 @@ def run(ctx):
             case = cases[ci]
             oracle = "!ORACLE" in a or "<no-output" in a
             if oracle:
-                key = classify(op, a)
+                key = classify(op, a, types.get(op_id(op), ("", None))[0])
                 bump(dist["oracle_failures"], key)
                 if key in seen_keys or len(seen_keys) >= 12:
                     continue          # one replay per failing-input key is enough
@@ -672,9 +690,11 @@ MANIFEST = {
     "technique": "Lean 4 proof over an executable codec model (types, values, size/encode/decode over a CodedInputStream state with limits; "
                  "induction over the type universe and the input) + translator-generated constants and parser-shape flags + E-SEQ differential "
                  "correspondence on ~50 concrete C++ types with a round-trip / size / fixpoint / termination oracle under ASan+UBSan",
-    "text": "Theorems in lean/Babylon/Properties/C11.lean hold for every type of the model's universe, every value and every input byte string / "
-            "presentation; the model is re-tied to /repo on each run by gen/wire.py and by running model and real Serialization (NDEBUG and debug builds) "
-            "on the same generated values, encodings and hostile mutations",
+    "text": "Theorems in lean/Babylon/Properties/C11.lean (varint round trip and size formula, size = length, parser total / never spins / consumes only "
+            "readable bytes, round trip under an explicit canonicity predicate, parse success => fixpoint, unknown fields skipped, absent fields keep "
+            "defaults, field order irrelevant, babylon reads protobuf's encoding of the documented kinds) hold for every type of the model's universe, every "
+            "value and every input byte string / presentation; the model is re-tied to /repo on each run by gen/wire.py and by running model and real "
+            "Serialization (NDEBUG and debug builds) on the same generated values, encodings and hostile mutations",
     "note": "Trusted: Lean kernel + 3 standard axioms; gen/wire.py; harness/c11.cpp and its generators (sampling); protobuf's coded streams are modelled, "
             "stream chunks < 10 bytes; memory safety by sanitizers on samples; size caches and unordered iteration order not modelled; three shapes excluded "
             "from the round-trip theorem are known findings (complex base class without whole-object cache, non-empty default member initialisers, null "
